@@ -10,7 +10,7 @@ N19 = [('N10', r'((?:self|\w+)(?:\.\w+)+)\.reserve\(', r'vec_reserve(&mut \1, ')
        ('N19', r'((?:self|\w+)(?:\.\w+)+)\.get_unchecked_mut\(', r'vec_get_unchecked_mut(&mut \1, '),
        ('N19', r'((?:self|\w+)(?:\.\w+)+)\.get_unchecked\(', r'vec_get_unchecked(&\1, ')]
 N8 = [('N8', r"Self::AccessMut<'_>", '&mut T')]
-N6B = [('N6b', r'for \((\w+), (\w+)\) in ([\w\.]+)\.iter_mut\(\)\.enumerate\(\) \{', r'for \1 in 0..\3.len() { let \2 = &mut \3[\1];'),
+N6B = [('N6b', r'for \((\w+), (\w+)\) in ([\w\.]+)\.iter_mut\(\)\.enumerate\(\) \{', r'for i__ in 0..\3.len() { let \1 = i__; let \2 = &mut \3[i__];'),
        ('N1', r'const _: Index = 0u32;', '')]
 FRAME_V = 'final(self).0@.len() >= old(self).0@.len() && forall|j: int| 0 <= j < old(self).0@.len() && j != id ==> #[trigger] final(self).0@[j] == old(self).0@[j]'
 
@@ -55,13 +55,13 @@ def build():
          ensures=[E('val', 'r == vec_val(old(self), id)'), E('frame', 'final(self).0@ == old(self).0@')])
     u.fn(ST, [VH, 'fn clean'], props='C04 C08', key='VecStorage::clean', impl_header=VI, rules=N19 + N6B,
          requires=[E('mask', 'vec_ok(old(self), has_.bview())'), E('wf', 'vec_wf(old(self))')],
-         hints=[('block_start', 'if has_.contains(i as u32)', 'proof { assert(vec_at(old(self), i as Index)); }')],
+         hints=[('block_start', 'if has_.contains(', 'proof { assert(vec_at(old(self), i__ as Index)); }')],
          ensures=[E('len', 'final(self).0@.len() == old(self).0@.len()'),
                   E('dropped', 'forall|i: Index| (i as int) < old(self).0@.len() && has_.bview().contains(i) ==> (#[trigger] final(self).0@[i as int]).cv().mv() is None', 'C08'),
                   E('kept', 'forall|i: Index| (i as int) < old(self).0@.len() && !has_.bview().contains(i) ==> #[trigger] final(self).0@[i as int] == old(self).0@[i as int]')],
          loops={0: dict(invariant=[E('len', 'self.0@.len() == old(self).0@.len()'),
-                                   E('todo', 'forall|k: int| i <= k < self.0@.len() ==> #[trigger] self.0@[k] == old(self).0@[k]'),
-                                   E('done', 'forall|k: int| 0 <= k < i ==> (if has_.bview().contains(k as u32) { (#[trigger] self.0@[k]).cv().mv() is None } else { self.0@[k] == old(self).0@[k] })'),
+                                   E('todo', 'forall|k: int| i__ <= k < self.0@.len() ==> #[trigger] self.0@[k] == old(self).0@[k]'),
+                                   E('done', 'forall|k: int| 0 <= k < i__ ==> (if has_.bview().contains(k as u32) { (#[trigger] self.0@[k]).cv().mv() is None } else { self.0@[k] == old(self).0@[k] })'),
                                    E('wf', 'vec_wf(old(self))'),
                                    E('mask', 'vec_ok(old(self), has_.bview())')])})
     u.fn(ST, ['impl<T> SharedGetMutStorage<T> for VecStorage<T>', 'fn shared_get_mut'], ret='r', props='C04 C06 C13', key='VecStorage::shared_get_mut',
